@@ -78,9 +78,14 @@ pub fn write_stream_trace(out: &mut impl Write, run: usize, label: &str, bytes: 
         Ok(Ok(r)) => r.prediction_corrections == a.corrections,
         _ => false,
     };
-    verif::predictor_log_start();
-    let d = guarded(|| verif::reconstruct_trace(&parse.plain, &a.corrections));
-    let rstates: Vec<PredictorState> = verif::predictor_log_take();
+    // the reconstruction runs on a thread of its own: nothing the analysis may have left behind in its
+    // thread (pools, caches) is there to help it
+    let (d, rstates) = std::thread::scope(|sc| sc.spawn(|| {
+        verif::predictor_log_start();
+        let d = guarded(|| verif::reconstruct_trace(&parse.plain, &a.corrections));
+        let rstates: Vec<PredictorState> = verif::predictor_log_take();
+        (d, rstates)
+    }).join().unwrap_or_else(|_| (Err("the reconstructing thread died".to_string()), Vec::new())));
     let d = match d {
         Ok(d) => d,
         Err(p) => {
